@@ -1,7 +1,8 @@
 """C12 — push evaluation: kind priority, first match, own events, disabled rules, condition dispatch, operator table, key escaping order."""
-import re
+import re, json
 from .. import dex as D, world as W, mir as M, authmodel as A
 from . import util as U
+from . import panic_common as PC
 
 LEVEL = "other"
 EXPLANATION = (
@@ -114,6 +115,55 @@ def list_order_rule(ctx, w, rule):
     if not dist:
         ctx.ok(rule, f"{rule}:scan", "", f"{n_ops} indexmap operations in ruma_common::push, none order-disturbing")
     ctx.floor("indexmap operations in ruma_common::push", n_ops, 15)
+
+
+def word_skip_rule(ctx, w, rule):
+    """The literal (no wildcard) branch of matches_word looks at one occurrence of the pattern at a time. After an occurrence without word boundaries it
+    moves on to the start of the NEXT WORD: first to the next non-word character at or after the occurrence, then to the next word character. Both steps are
+    needed and both predicates matter: skipping to whitespace instead loses an occurrence that follows punctuation (`bobby,bob`), and without the second
+    step a pattern that starts with a non-word character is found at offset 0 again and the loop never ends. Decided on the MIR: the value assigned back to
+    the loop variable is `value[start..][find(!is_word_char)..][find(is_word_char)..]`."""
+    ctx.rule(rule, "matches_word (no wildcard): the text searched next is the rest of the value from the next word on - two nested `find`s, the first with the predicate "
+                   "`!c.is_word_char()`, the second with `c.is_word_char()` (progress: at least one character is consumed in every iteration)")
+    fs = [g for g in w.all_fns() if g["path"].endswith("StrExt>::matches_word") and "body" in g]
+    if len(fs) != 1:
+        ctx.missing(rule, f"{rule}:matches_word", "matches_word not found")
+        return
+    f = fs[0]
+    body = f["body"]
+    defs = PC.roots(body)
+    names = body.get("names") or {}
+    vl = [int(k) for k, v in names.items() if v == "value"]
+    dx = D.Dex(w.lookup, adt_discr=w.adt_discr, inline=lambda n: False)
+    sems = []
+    for bi, c in M.calls(body):
+        if not M.callee_name(c).endswith("<impl str>::find"):
+            continue
+        fa = (c.get("fnargs") or [""])[-1]
+        m = re.search(r"\{closure@[^:]+:(\d+):\d+", fa)
+        if fa in ("&str", "char", "&alloc::string::String"):
+            continue                      # the search for the pattern itself
+        if not m:
+            sems.append("other:" + fa[:60])
+            continue
+        clo = [g for g in w.all_fns() if g["path"].startswith(f["path"] + "::{closure") and "body" in g and g["span"][1] == int(m.group(1))]
+        r = ""
+        if len(clo) == 1:
+            ps = [p for p in dx.paths(clo[0], [D.sym("env"), D.sym("c")])]
+            r = D.show(ps[0].ret) if len(ps) == 1 and not ps[0].conds else ""
+        sems.append("neg" if re.fullmatch(r"!\(?(?:\w+::)*is_word_char\(c\)\)?", r) else ("pos" if re.fullmatch(r"(?:\w+::)*is_word_char\(c\)", r) else "other:" + r[:60]))
+    reassigned = []
+    for b in body["blocks"]:
+        for st in b["s"]:
+            if st[0] == "=" and st[1] in vl and st[2][0] == "use":
+                e = PC.expr(body, defs, st[2][1])
+                if "<impl str>::find" in json.dumps(e):        # the initial `value = self` is not a step of the loop
+                    reassigned.append(json.dumps(e))
+    nested = len(reassigned) == 1 and reassigned[0].count('["agg", "closure", []]') == 3 and reassigned[0].count("<impl str>::find") >= 4
+    ctx.check(bool(vl) and sems == ["neg", "pos"] and nested, rule, f"{rule}:matches_word", w.where(f),
+              bad_msg=f"the literal branch of matches_word does not move on to the start of the next word (predicates of the skipping searches, in order: {sems}; "
+                      f"{len(reassigned)} reassignment(s) of the searched text, nested as non-word-then-word: {nested}): an occurrence after punctuation is skipped, or the "
+                      f"same occurrence is found again at offset 0 and the loop does not terminate")
 
 
 def run(ctx):
@@ -309,6 +359,7 @@ def run(ctx):
         any("RoomId::as_str(ctx.room_id)" in r for r in words) and any("FlattenedJson::get_str(event, key).Some.0" in r for r in words) and any(r == "False" for _, r in rets)
     ctx.check(good, "C12.conditions", "C12.conditions:check_event_match", w.where(f), bad_msg=f"{sorted(r for _, r in rets)}")
 
+    word_skip_rule(ctx, w, "C12.word-skip")
     ctx.rule("C12.count", "RoomMemberCountIs: prefix -> operator table (`==`, `<`, `>`, `<=`, `>=`, none = ==) and each operator's range test")
     f = w.fn(f"<{PU}condition::room_member_count_is::RoomMemberCountIs as core::str::traits::FromStr>::from_str")
     ps = dex.paths(f, [D.sym("s")])
